@@ -3,6 +3,7 @@ module crngverif/harness
 go 1.13
 
 require (
+	github.com/BurntSushi/toml v0.0.0-00010101000000-000000000000
 	github.com/grafana/carbon-relay-ng v0.0.0
 	github.com/kisielk/og-rek v0.0.0-20170405223746-ec792bc6e6aa
 	github.com/metrics20/go-metrics20 v0.0.0-20180821133656-717ed3a27bf9
